@@ -45,11 +45,24 @@ type poolListener struct {
 	stale   int // insert notifications of a momentum that is not the frontier of the store
 	nilBlk  int // ... carrying account blocks the store does not have
 	context string
+	tracing bool                         // the views of every account are recorded at every notification (reorg.go)
+	trace   []map[types.Address]acctView
 }
 
+// a panic in a listener unwinds through momentumPool.AddMomentumTransaction while its mutex is released for the
+// notification; the deferred Unlock then ends the process ("fatal error: sync: unlock of unlocked mutex"): never let one out
 func (l *poolListener) InsertMomentum(d *nom.DetailedMomentum) {
+	if p := protect(func() { l.insertMomentum(d) }); p != nil {
+		l.r.out.Oracle(false, "pool-readable-at-insert-notification", Tup(fmt.Sprint(p), l.context))
+	}
+	l.r.progress()
+}
+func (l *poolListener) insertMomentum(d *nom.DetailedMomentum) {
 	l.inserts++
 	r := l.r
+	if l.tracing {
+		l.trace = append(l.trace, r.views())
+	}
 	fm := FrontierOf(r.nd.Ch)
 	applied := fm.Hash == d.Momentum.Hash
 	if !applied {
@@ -96,7 +109,6 @@ func (l *poolListener) InsertMomentum(d *nom.DetailedMomentum) {
 		r.clauseNow(addr, a, where)
 	}
 }
-func (l *poolListener) DeleteMomentum(*nom.DetailedMomentum) { l.deletes++ }
 
 // generate step of a producing pillar on the current frontier: content = the given blocks (pooled, in pool order)
 func (r *poolRun) generate(blocks []*nom.AccountBlock, dt int64) (*nom.MomentumTransaction, error) {
